@@ -178,6 +178,18 @@ def replay_gen(payload):
                   "missing": [[sorted(map(sorted, k[0])), sorted(k[1])] for k in list(missing)[:3]]},
                  matches_known_loose_contraction=(got == loose))
             continue
+        # the returned closure is a NEW object: mutating it must not change what the original entails (no shared cache)
+        o2 = allc[(ci * 5 + 1) % len(allc)]
+        extra_a = next((a for a in o2["closure"] if akey(a["x"], a["y"], a["z"]) not in exp and akey(a["x"], a["y"], a["z"]) not in loose), None)
+        if extra_a is not None:
+            cobj = ind.closure()
+            cobj.add_assertions([[vn[v] for v in extra_a["x"]], [vn[v] for v in extra_a["y"]], [vn[v] for v in extra_a["z"]]])
+            ncalls += 1
+            again = {akey([inv[v] for v in a.event1], [inv[v] for v in a.event2], [inv[v] for v in a.event3]) for a in ind.closure().get_assertions()}
+            if again != got:
+                fail("Independencies.closure", "changed_by_mutating_an_earlier_result", "closures", c,
+                     {"added": extra_a, "now_contains_it": akey(extra_a["x"], extra_a["y"], extra_a["z"]) in again})
+                continue
         # entails / is_equivalent against another premise set of the batch
         o = allc[(ci * 7 + 3) % len(allc)]
         oexp = {akey(a["x"], a["y"], a["z"]) for a in o["closure"]}
